@@ -735,4 +735,119 @@ theorem atol_overflow (w : Nat) (hw : 0 < w) (t : List Byte)
 
 end atolovf
 
+/-! ## unconditional safety of the bisections (no hypothesis on the comparator or the layout) -/
+
+section safe
+variable {κ α : Type}
+
+theorem bsLoop_safe (cmp : κ → α → Int) (key : κ) (a : List α) :
+    ∀ (f l r : Nat), l < r → r ≤ a.length → r - l < f →
+      ∃ l' r', bsLoop cmp key a f l r = some (l', r') ∧ l' < a.length := by
+  intro f
+  induction f with
+  | zero => intro l r _ _ h; omega
+  | succ f ih =>
+    intro l r hlr hr hf
+    unfold bsLoop
+    by_cases h : l + 1 < r
+    · simp only [h, if_true]
+      have hm : l + (r - l) / 2 < a.length := by omega
+      rw [List.getElem?_eq_getElem hm]
+      simp only []
+      split
+      · exact ih l (l + (r - l) / 2) (by omega) (by omega) (by omega)
+      · exact ih (l + (r - l) / 2) r (by omega) hr (by omega)
+    · simp only [h, if_false]
+      exact ⟨l, r, rfl, by omega⟩
+
+theorem bsearch_safe' (cmp : κ → α → Int) (key : κ) (a : List α) :
+    ∃ r, bsearch cmp key a = some r ∧ ∀ i, r = some i → i < a.length := by
+  unfold bsearch
+  by_cases h0 : a.length = 0
+  · simp [h0]
+  · simp only [h0, if_false]
+    obtain ⟨l', r', h, hl⟩ := bsLoop_safe cmp key a (a.length + 1) 0 a.length (by omega) (by omega) (by omega)
+    rw [h]
+    simp only []
+    rw [List.getElem?_eq_getElem hl]
+    simp only []
+    split
+    · exact ⟨_, rfl, by intro i hi; cases hi; exact hl⟩
+    · exact ⟨_, rfl, by intro i hi; cases hi⟩
+
+theorem bndLoop_safe (p : α → Bool) (a : List α) :
+    ∀ (f l r : Nat), l ≤ r → r ≤ a.length → r - l < f →
+      ∃ x, bndLoop p a f l r = some x ∧ l ≤ x ∧ x ≤ r := by
+  intro f
+  induction f with
+  | zero => intro l r _ _ h; omega
+  | succ f ih =>
+    intro l r hlr hr hf
+    unfold bndLoop
+    by_cases h : l < r
+    · simp only [h, if_true]
+      have hm : l + (r - l) / 2 < a.length := by omega
+      rw [List.getElem?_eq_getElem hm]
+      simp only []
+      split
+      · obtain ⟨x, hx, h1, h2⟩ := ih l (l + (r - l) / 2) (by omega) (by omega) (by omega)
+        exact ⟨x, hx, h1, by omega⟩
+      · obtain ⟨x, hx, h1, h2⟩ := ih (l + (r - l) / 2 + 1) r (by omega) hr (by omega)
+        exact ⟨x, hx, by omega, h2⟩
+    · simp only [h, if_false]
+      exact ⟨l, rfl, Nat.le_refl _, hlr⟩
+
+end safe
+
+/-- one more digit never wraps: after ANY digit string the state is flagged or
+`acc ≤ limit`, and whenever the cutoff/cutlim test lets the next digit through,
+`acc * base + digit ≤ limit < 2^w` — the `% 2^w` of `stepU` is the identity on
+every step of every run -/
+theorem stepU_never_wraps (W b limit : Nat) (ovf : Option Nat) (hb : 0 < b) (hW : limit < W)
+    (ds : List Nat) (hds : ∀ d ∈ ds, d < b) (d : Nat) (hd : d < b)
+    (st : Nat × Int)
+    (hst : st = ds.foldl (fun st (d : Nat) => stepU W b (limit / b) ((limit % b : Nat) : Int) ovf st (d : Int)) (0, 0)) :
+    st.2 = -1 ∨ (st.1 ≤ limit ∧
+      (¬ (st.1 > limit / b ∨ (st.1 = limit / b ∧ (d : Int) > ((limit % b : Nat) : Int))) → st.1 * b + d ≤ limit)) := by
+  have g0 : GoodU limit ovf 0 false ((0 : Nat), (0 : Int)) :=
+    ⟨fun _ => ⟨rfl, rfl⟩, (by intro h; cases h), (by intro h; cases h)⟩
+  have g := foldU_good W b limit ovf hb hW ds 0 false (0, 0) hds g0
+  rw [← hst] at g
+  obtain ⟨g1, g2, g3⟩ := g
+  generalize hN : ds.foldl (fun a d => a * b + d) 0 = N at *
+  have key := cutoff_test limit b
+  cases hne : (false || !ds.isEmpty) with
+  | false =>
+    obtain ⟨hN0, hs⟩ := g1 hne
+    right
+    rw [hs]
+    dsimp only
+    refine ⟨Nat.zero_le _, ?_⟩
+    intro hno
+    have := key 0 d hb hd
+    apply Classical.byContradiction
+    intro hc
+    apply hno
+    have h' := this.2 (by omega)
+    rcases h' with h' | ⟨h1, h2⟩
+    · left; exact h'
+    · right; exact ⟨h1, by omega⟩
+  | true =>
+    by_cases hfit : N ≤ limit
+    · have hs := g2 hne hfit
+      right
+      rw [hs]
+      dsimp only
+      refine ⟨hfit, ?_⟩
+      intro hno
+      have := key N d hb hd
+      apply Classical.byContradiction
+      intro hc
+      apply hno
+      have h' := this.2 (by omega)
+      rcases h' with h' | ⟨h1, h2⟩
+      · left; exact h'
+      · right; exact ⟨h1, by omega⟩
+    · left; exact (g3 hne (by omega)).1
+
 end Igris.C11
